@@ -239,6 +239,11 @@ func c06Run(w *core.W) {
 			judge(strings.Repeat("-", d) + "1")
 			judge(strings.Repeat("- ", d) + "1")
 		}
+		// for loops whose numbers of variables and iterators differ (the parser's own error, not the combinators')
+		for _, in := range []string{"for a, b <- f() 1", "for a <- f(), g() 1", "for a, b, c <- f(), g() 1", "for a, b <- f(), g(), h() 1",
+			"for <- f() 1", "for a, <- f() 1", "for a <- 1", "for a, b <- f(), g()", "for a, a <- f(), g() a", "x = for a, b <- f() 1", "{\nfor a, b <- f() 1\n}"} {
+			judge(in)
+		}
 		// errors at every distance from both ends of long lines, alone and inside a multi-line input
 		for _, L := range []int{60, 100, 119, 120, 121, 122, 179, 180, 181, 239, 240, 241, 245, 300, 1000} {
 			var b strings.Builder
